@@ -1,16 +1,5 @@
 #!/bin/bash
-# usage: tools/seed_checks.sh <ID>  — applies seeded/<ID>/patch.diff to a scratch copy of /repo HEAD (outside /repo and
-# /verif), runs every property's quick check on it with -repo, writes seeded/<ID>/checks.txt, removes the copy.
-set -u
-export GOFLAGS=-mod=mod GOPROXY=off GOSUMDB=off GOTOOLCHAIN=local; unset GOWORK
-id="$1"; out="/verif/seeded/$id"
-d=$(mktemp -d /tmp/seedchk.XXXXXX); trap 'rm -rf "$d"' EXIT
-git -C /repo archive HEAD | tar -x -C "$d"
-if ! (cd "$d" && patch -p1 -s --no-backup-if-mismatch < "$out/patch.diff"); then echo "PATCH DOES NOT APPLY to /repo HEAD" | tee "$out/checks.txt"; exit 1; fi
-(cd "$d" && go build ./...) || { echo "does not build" | tee "$out/checks.txt"; exit 1; }
-echo "# quick checks on /repo HEAD $(git -C /repo log --format=%h -1) + seeded/$id/patch.diff (exit 1 = VIOLATION reported)" > "$out/checks.txt"
-for p in $(/verif/bin/raftlint -list | cut -d: -f1); do
-  o=$(/verif/bin/raftlint -repo "$d" -no-evidence -property $p -tier quick 2>&1); c=$?
-  if [ $c -ne 0 ]; then echo "$p exit=$c" >> "$out/checks.txt"; echo "$o" | grep -E "^  rule=" | cut -c1-420 | sed "s/^/   /" >> "$out/checks.txt"; fi
-done
-cat "$out/checks.txt" | cut -c1-200
+# usage: tools/seed_checks.sh <ID>  — every property's quick check on (newest /repo commit the patch applies to) +
+# seeded/<ID>/patch.diff, minus what the checks say on that commit alone; writes seeded/<ID>/checks.txt.
+# See tools/seed_eval.py.
+exec python3 /verif/tools/seed_eval.py "$1" all
